@@ -354,6 +354,34 @@ func deepRun(args []string) error {
 		fmt.Printf("lexflat\tflat\t%d\t%s\n", n, out)
 		return nil
 	}
+	if args[0] == "lexreturn" {
+		// n states entered one inside the other, then a character only Return can answer: ONE call of Next leaves them all (a
+		// loop in the library, so the depth costs no stack)
+		def := lexer.MustStateful(lexer.Rules{
+			"Root": {{Name: "Open", Pattern: `\(`, Action: lexer.Push("In")}, {Name: "X", Pattern: `x`}},
+			"In":   {{Name: "Open", Pattern: `\(`, Action: lexer.Push("In")}, lexer.Return()},
+		})
+		in := strings.Repeat("(", n) + "x"
+		l, _ := def.LexString("f", in)
+		toks := 0
+		for {
+			t, err := l.Next()
+			if err != nil {
+				fmt.Printf("lexreturn\tflat\t%d\terr %v\n", n, err)
+				return nil
+			}
+			if t.EOF() {
+				break
+			}
+			toks++
+		}
+		out := "ok"
+		if toks != n+1 {
+			out = fmt.Sprintf("err %d tokens", toks)
+		}
+		fmt.Printf("lexreturn\tflat\t%d\t%s\n", n, out)
+		return nil
+	}
 	for _, e := range examples() {
 		if e.name != args[0] {
 			continue
